@@ -532,3 +532,14 @@ def run(rep: Report, tier: str):
             rep.ok("C14.views", f.qualname, f"iterates {src(good[0])}", f"{f.file}:{f.line}")
         else:
             rep.bad("C14.views", f.qualname, "not-live-iteration", f"{f.qualname} does not iterate the live opcode list (iterates {[src(i) for i in iters]})", f.file, f.line)
+
+    # value level, interpreted last: edit sequences with every view read before and after each edit
+    from ..editworlds import explore as _edit_explore
+
+    rep.rule("C14.edit-worlds", "after every edit of every sequence, program / summaries / verdict / bytes equal those of a fresh Pickled with the same opcodes; dumps() is the concatenation of the opcodes' data", 1)
+    found, n_seq = _edit_explore(repo, tier)
+    pkc = repo.cls("fickling.fickle.Pickled")
+    for key, (c, msg) in sorted(found.items()):
+        rep.bad("C14.edit-worlds", pkc.qualname, key, f"{msg} [{c} sequence(s)]", pkc.module.relpath, pkc.node.lineno)
+    rep.ok("C14.edit-worlds", pkc.qualname, f"{n_seq} edit sequences (3 base pickles x every sequence of 1-2 of 11 operations: insert / delete / replace / append / extend / pop and four injection-helper calls; thorough: also of 3) interpreted with all four derived views read before the first and after each edit and compared with a freshly constructed Pickled of the same opcodes", "", nontrivial=True)
+
